@@ -91,3 +91,37 @@ extern "C" void harness_c34()
     }
     VERIF_END();
 }
+
+// is_real of square roots: sqrt(u) is real exactly when u >= 0
+extern "C" void harness_c34_real()
+{
+    RCP<const Basic> x = symbol("x"), y = symbol("y");
+    set_basic st;
+    ve::Env env;
+    SymVal sx = assume_symbol(x, "x", st), sy = assume_symbol(y, "y", st);
+    env.val["x"] = sx.v;
+    env.val["y"] = sy.v;
+    Assumptions as(st);
+    long c = (long)verif_choice("c", 5) - 2;
+    RCP<const Basic> u;
+    switch (verif_choice("shape", 9)) {
+        case 0: u = x; break;
+        case 1: u = add(x, integer(c)); break;
+        case 2: u = mul(x, y); break;
+        case 3: u = pow(x, integer(2)); break;
+        case 4: u = abs(x); break;
+        case 5: u = add(pow(x, integer(2)), pow(y, integer(2))); break;
+        case 6: u = neg(pow(x, integer(2))); break;
+        case 7: u = mul(integer(c), x); break;
+        default: u = add(abs(x), integer(c)); break;
+    }
+    double uv = ve::ev(*u, env);
+    int form = (int)verif_choice("form", 3);
+    RCP<const Basic> e = form == 0 ? sqrt(u) : form == 1 ? pow(u, div(integer(3), integer(2))) : add(sqrt(u), y);
+    tribool re = is_real(*e, &as);
+    if (is_true(re))
+        verif_assert(uv >= 0, "is_real true for a square root => the radicand is non-negative for all admissible values");
+    if (is_false(re))
+        verif_assert(uv < 0, "is_real false for a square root => the radicand is negative for all admissible values");
+    VERIF_END();
+}
